@@ -265,6 +265,7 @@ class C13(Prop):
                          p_drop_kernel=rng.choice([0, 0.1]), p_drop_launch=rng.choice([0, 0.1]), unlinked_head=rng.choice([0, 1]))
         cfg.same_tid_process = cfg.n_extra_threads >= 1 and rng.random() < 0.5
         cfg.bwd_end_tie = rng.random() < 0.5
+        cfg.corr_base = rng.choice([100, 100, 0])           # correlation ids may start at 0
         if cfg.n_ranks > 1 and rng.random() < 0.5:
             cfg.per_rank = {1: {"bwd_annotation": not cfg.bwd_annotation}}       # ranks of one job instrumented differently
         if k % 40 in (7, 23, 31):
